@@ -229,6 +229,10 @@ var c15TripleTemplates = [][2]string{
 	{" /u<a>\t\"p\"@[]\t", ""},
 	{"\t", "/u<a>\t\"p\"@[]\t/u<c> "},
 	{"  /u<a>\t\"p\"@[]", "\t/u<c>"},
+	// several blanks before the triple and an object of up to N bytes (offsets taken
+	// before trimming would point past the end of the trimmed text)
+	{"\t\t\t/u<a>\t\"p\"@[]\t", ""},
+	{"   /u<a>\t\"p\"@[]\t", "  "},
 }
 
 // C15 (b): triple.Parse on valid triple text with a hole of up to N symbolic
